@@ -320,3 +320,23 @@ MUTANTS += [
  dict(name='c15-compressed-params-pairing-roles', prop='C15', expect='params-pairing',
       edits=[('src/wkdibe/marshal.cpp', 'bls12_381::pairing(this->pairing, g2affine, g1affine);', 'bls12_381::pairing(this->pairing, g3affine, g1affine);')]),
 ]
+MUTANTS += [
+ dict(name='c06-revert-D3-wnaf-carry', prop='C06', revert='D3', expect='R-CARRY'),
+ dict(name='c06-benign-subgroup-test-uses-generic-Projective-multiply', prop='C06', benign=True, expect='',
+      edits=[('include/bls12_381/curve.hpp', 'ar.multiply_doubleadd_restrict(*this, ScalarField::p_value);', 'ar.multiply(*this, ScalarField::p_value);')]),
+ dict(name='c06-cofactor-via-256bit-overload', prop='C06', expect='R-DISPATCH',
+      edits=[('src/lqibe/api.cpp', 'q.multiply(qaffine, G1Affine::cofactor);', 'core::BigInt<256> h; h.copy(G1Affine::cofactor); q.multiply(qaffine, h);')]),
+ dict(name='c06-wnaf-buffer-bits', prop='C06', expect='wnaf|extent',
+      edits=[('include/bls12_381/wnaf.hpp', 'int8_t wnaf[bits + 1];', 'int8_t wnaf[bits];')]),
+ dict(name='c06-digit-read-unguarded', prop='C06', expect='R-GUARD/G6',
+      edits=[('src/bls12_381/curve_fast_multiply.cpp', 'if (i < wc1.wnaf_size && wc1.wnaf[i] != 0) {', 'if (wc1.wnaf[i] != 0) {')]),
+ dict(name='c06-digit-guard-wrong-scalar', prop='C06', expect='R-GUARD/G6',
+      edits=[('src/bls12_381/curve_fast_multiply.cpp', 'if (i < wc1.wnaf_size && wc1.wnaf[i] != 0) {', 'if (i < wc0.wnaf_size && wc1.wnaf[i] != 0) {')]),
+ dict(name='c06-frobenius-loop-starts-63', prop='C06', expect='frobenius-start',
+      edits=[('src/bls12_381/curve_fast_multiply.cpp', 'for (int i = 64; i != -1; i--) {', 'for (int i = 63; i != -1; i--) {')]),
+ dict(name='c06-beta-other-root', prop='C06', expect='glv|beta',
+      edits=[('src/bls12_381/curve_fast_multiply.cpp', '{{{.std_words = {0x798a64e8, 0x30f1361b, 0x7ece5a2a, 0xf3b8ddab, 0xc61577f7, 0x16a8ca3a, 0x74fd029b, 0xc26a2ff8, 0x60701c6e, 0x3636b766, 0x241b6160, 0x051ba4ab}}}}',
+              '{{{.std_words = {0x8671f071, 0xcd03c9e4, 0x1fcda5d2, 0x5dab2246, 0xd3851b95, 0x587042af, 0x1bacb9e, 0x8eb60ebe, 0x83d050d2, 0x3f97d6e, 0x5ac9f2fb, 0x144e4211}}}}')]),
+ dict(name='c06-reciprocal-last-word', prop='C06', expect='glv|reciprocal',
+      edits=[('src/bls12_381/curve_fast_multiply.cpp', '.std_words = {0xfc75349a, 0xf6dee1ae,', '.std_words = {0xfc753499, 0xf6dee1ae,')]),
+]
